@@ -146,8 +146,20 @@ def _pair_ops(rng, tier):
         yield ("pair", ta, tb, rng.randint(0, 1))
 
 
+_NOW_ZONES = ("Asia/Tokyo", "America/Toronto", "Pacific/Kiritimati", "Pacific/Pago_Pago", "Asia/Kolkata", "UTC", "Europe/Paris")
+
+
+def _now_ops(rng, tier):
+    """now-relative phrases (no reference given): an instant `delta` seconds from the real clock, under a configured local timezone
+    that differs from the platform's. Oracle only, English: 'ago' / 'from now' and a magnitude within one unit (+ a minute of slack)"""
+    for _ in range({"quick": 300, "thorough": 3000, "widen": 600}[tier]):
+        mag = rng.choice((rng.randint(90, 3500), rng.randint(3700, 80000), rng.randint(90000, 30 * 86400)))
+        yield ("nowrel", rng.choice((-1, 1)) * mag, rng.choice(_NOW_ZONES), rng.randint(0, 2))
+
+
 def gen_ops(rng, tier):
     yield from _pair_ops(rng, tier)
+    yield from _now_ops(rng, tier)
     locs = locales()
     top = 200 if tier == "quick" else 1000
     flags = [(inv, now, ab) for inv in (0, 1) for now in (0, 1) for ab in (0, 1)]
@@ -272,7 +284,7 @@ def corpus():
 
 def line(op, backend):
     k = op[0]
-    if k == "pair":
+    if k in ("pair", "nowrel"):
         return None          # oracle only: the true elapsed time is the reference, not the model's component arithmetic
     if k == "fmt":
         return " ".join(["c18fmt", op[2]] + [str(x) for x in op[3:]])
@@ -449,6 +461,16 @@ def impl(op, backend):
     if k == "plural":
         L = _P["Locale"].load(op[1])
         return "ok " + enc_str(L.plural(op[2])) + " " + enc_str(L.ordinal(op[2]))
+    if k == "nowrel":
+        import time
+        _, delta, tzname, form = op
+        p.set_local_timezone(p.timezone(tzname))
+        try:
+            t = time.time() + delta
+            inst = (p.from_timestamp(t), p.from_timestamp(t, tzname), p.instance(dt.datetime.fromtimestamp(t, dt.timezone.utc)))[form]
+            return "ok " + enc_str(inst.diff_for_humans(locale="en"))
+        finally:
+            p.set_local_timezone()
     if k == "pair":
         _, ta, tb, ab = op
         a, b = p.from_timestamp(ta), p.from_timestamp(tb)
@@ -570,12 +592,35 @@ def _o_pair(op, phrase):
     return None
 
 
+def _o_nowrel(op, phrase):
+    _, delta, tzname, form = op
+    words = phrase.split(" ")
+    if delta < 0:
+        if words[-1:] != ["ago"]:
+            return f"an instant {-delta} s in the past (local timezone set to {tzname}) reads {phrase!r}"
+        words = words[:-1]
+    else:
+        if words[:1] != ["in"]:
+            return f"an instant {delta} s in the future (local timezone set to {tzname}) reads {phrase!r}"
+        words = words[1:]
+    elapsed = abs(delta)
+    if len(words) != 2 or not words[0].isdigit() or words[1].rstrip("s") not in _PAIR_UNITS:
+        return f"unexpected phrase {phrase!r}"
+    n = int(words[0])
+    umin, umax = _PAIR_UNITS[words[1].rstrip("s")]
+    if not (n * umin - umax - 60 <= elapsed <= (n + 1) * umax + 60):
+        return f"{phrase!r} is not within one unit of the true distance from now, {elapsed} s (local timezone set to {tzname})"
+    return None
+
+
 def oracle(op, out, backend):
     k = op[0]
     if not out.startswith("ok"):
         return f"raised {out[4:]}"
     if k == "pair":
         return _o_pair(op, dec_str(out.split(" ", 1)[1]))
+    if k == "nowrel":
+        return _o_nowrel(op, dec_str(out.split(" ", 1)[1]))
     if k == "alias":
         return None if out == "ok 1" else f"Locale.load({op[1]!r}) is not the cached Locale.load({op[2]!r})"
     if k == "plural":
@@ -648,6 +693,8 @@ def oracle(op, out, backend):
 
 def tag(op, out):
     k = op[0]
+    if k == "nowrel":
+        return "nowrel:" + ("past" if op[1] < 0 else "future") + ":" + op[2]
     if k == "pair":
         w = dec_str(out.split(" ", 1)[1]).split(" ") if out.startswith("ok ") else ["?"]
         w = [x for x in w if x not in ("before", "after")]
